@@ -590,6 +590,9 @@ func runC07(c *Ctx) {
 		c.Count(dst+text, derr == nil)
 		c.Hit("target:" + dst)
 		checkDecodeTotalIdem(c, dst, []byte(text), sus, "mutated:"+src)
+		if !sus {
+			corrNorm(c, dst, m)
+		}
 		if len(c.Res.Samples) < 4 && i%977 == 5 {
 			c.Sample(map[string]interface{}{"target": dst, "input": json.RawMessage(text)})
 		}
